@@ -22,7 +22,7 @@ LEVEL = "fault_enumeration"
 RULE = (
     "case = (real child process behaviour: well-behaved echo server, exits after k messages for k=0..3, ignores SIGTERM after signalling readiness, never reads stdin, floods stdout, closes stdout, "
     "closes stdin, slow start; or a command that cannot be started: missing path, directory, non-executable file) x (exit path: normal, exception in body, outer CancelScope.cancel(), move_on_after around the "
-    "whole context) x (moment: before the first message, request in flight, after a response); the product is enumerated (quick: every (behaviour, exit path) pair with rotating moments; thorough: full product x 3 jitters); "
+    "whole context, cancellation arriving while the context is already shutting down) x (moment: before the first message, request in flight, after a response); the product is enumerated (quick: every (behaviour, exit path) pair with rotating moments; thorough: full product x 3 jitters); "
     "measured by the harness: context exit duration <= 2 x 1 s grace + 3 s slack, no /proc entry (running or zombie) for the child after a <=1 s settle, open-fd count equal to the count before entry, a request "
     "pending when the child dies ends in an exception, an unstartable command makes entering raise; non-trivial = behaviour other than well-behaved or exit path other than normal; distinct = distinct cell"
 )
@@ -94,7 +94,7 @@ if beh == "ignore_sigterm":
 
 BEHAVIOURS = ["well_behaved", "exit_at_0", "exit_at_1", "exit_at_2", "exit_at_3", "ignore_sigterm", "never_reads", "flood", "close_stdout", "close_stdin", "slow_start"]
 SPAWN_FAIL = ["missing_path", "directory", "not_executable"]
-EXITS = ["normal", "exception", "cancel", "move_on_after"]
+EXITS = ["normal", "exception", "cancel", "move_on_after", "cancel_during_exit"]
 MOMENTS = ["before_first", "in_flight", "after_response"]
 GRACE_BOUND = 2 * 1.0 + 3.0
 
@@ -215,6 +215,10 @@ def run_cell(case: Dict[str, Any]) -> Dict[str, Any]:
                                 await asyncio.sleep(0)
                             if exit_path == "move_on_after":
                                 await asyncio.sleep(5)
+                            if exit_path == "cancel_during_exit":
+                                # the body ends normally; the enclosing scope is cancelled a moment later,
+                                # i.e. while the context is already shutting down (inside a grace period)
+                                asyncio.get_running_loop().call_later(0.3 + case.get("jitter", 0.0), scope.cancel)
                         finally:
                             t_exit0 = time.time()
                             obs["t_exit0"] = t_exit0
@@ -356,6 +360,9 @@ def cells(full: bool) -> List[Dict[str, Any]]:
     extra = {"child": "ignore_sigterm", "exit": "cancel", "moment": "before_first"}
     if extra not in cs:
         cs.append(extra)
+    extra3 = {"child": "ignore_sigterm", "exit": "cancel_during_exit", "moment": "before_first"}
+    if extra3 not in cs:
+        cs.append(extra3)
     extra2 = {"child": "ignore_sigterm", "exit": "move_on_after", "moment": "in_flight"}
     if extra2 not in cs:
         cs.append(extra2)
